@@ -391,7 +391,7 @@ def corr_ts(ctx, drv, exe, nscen, seed, res):
             elif curb is not None: curb.append(l)
         if len(blocks) != len(exp):
             res['mismatch'].append(('ts', where + 'model produced %d results for %d returns' % (len(blocks), len(exp)))); continue
-        okA = True
+        okA = True; seenQ = []; prev_status = None
         for r, blk in zip(exp, blocks):
             mt = blk[0].split()
             w = where + 'stepTo -> %s t=%s adv=%s: ' % (r['status'], r['t_s'], r['adv_s'])
@@ -406,7 +406,18 @@ def corr_ts(ctx, drv, exe, nscen, seed, res):
                 else:
                     res['mismatch'].append(('ts:contract', w + 'advanced time decreased (use_mono violated) for %s' % a['name'])); okA = False; break
             if not feq(fx(mt[7]), r['qa'], 1e-12) or not feq(fx(mt[8]), r['qb'], 1e-9):
-                res['mismatch'].append(('ts', w + 'advanced state after handling: implementation qA=%s qB=%s, model %s %s' % (hx(r['qa']), hx(r['qb']), mt[7], mt[8]))); okA = False; break
+                # CPodesIntegratorRep keeps a state saved before a scheduled-event handler ran (savedY) and restores it as the
+                # advanced state on the return that follows a later triggered event whose handlers changed nothing: the
+                # returned state then shows exactly an EARLIER advanced state of the run (pre-handler values)
+                stale = a['name'] == 'CPodes' and prev_status == 'ReachedEventTrigger' and any(feq(q[0], r['qa']) and feq(q[1], r['qb']) for q in seenQ)
+                if stale:
+                    res['findings'].append(('cpodes-stale-saved-state',
+                        'CPodesIntegratorRep::stepTo returns a stale advanced state after a triggered event: ' + w +
+                        'implementation qA=%s qB=%s is the advanced state of an earlier return (before a scheduled handler changed qA), the handlers produced qA=%s qB=%s' % (hx(r['qa']), hx(r['qb']), mt[7], mt[8]),
+                        {'scenario': a['id'], 'seed': seed, 'replay_cmd': '%s ts %d %d 1' % (exe, seed, nscen)}))
+                else:
+                    res['mismatch'].append(('ts', w + 'advanced state after handling: implementation qA=%s qB=%s, model %s %s' % (hx(r['qa']), hx(r['qb']), mt[7], mt[8]))); okA = False; break
+            seenQ.append((r['qa'], r['qb'])); prev_status = r['status']
             n0 = len(res['mismatch']); cmp_log(blk, r['h'], ids, w, res, 'ts')
             if len(res['mismatch']) != n0: okA = False; break
             res['n_ts_returns'] += 1
@@ -532,13 +543,20 @@ def corr_sub2(ctx, drv, exe, n, res):
                  'handler_calls': [' '.join(h) for h in c0['h']], 'replay_cmd': '%s sub2 %d 2' % (exe, ctx.seed)}))
         else:
             res['mismatch'].append(('sysnext', 'the implementation follows the as-written variant but the witness run shows no wrong call: %s' % c0['h']))
+    else:
+        # regression: the witnesses of the repaired defect must now pass -- each handler called only at its own time
+        for c, due in ((cases[0], 0.5), (cases[1], 0.3125)):
+            wrong = [h for h in c['h'] if h[1] == '0' and fx(h[3]) != due]
+            if wrong or not any(h[1] == '0' for h in c['h']):
+                res['mismatch'].append(('sysnext', 'regression witness of the repaired sys-next defect fails: default-subsystem handler due at %s called at %s' % (due, [h[3] for h in c['h'] if h[1] == '0'])))
+        res['regressions_passed'].append('sys-next-ids-accumulate (two-subsystem witnesses: handler called only at its own time)')
     return variant
 
 # ------------------------------------------------------------------------------------------------ run
 def new_res():
     return {'mismatch': [], 'pred_fail': [], 'n_table': 0, 'n_root': 0, 'n_fec': 0, 'n_fec_nontrivial': 0, 'n_steps': 0, 'n_events': 0,
             'n_events_compared': 0, 'n_iters_compared': 0, 'iters_hist': {}, 'loc_paths': {}, 'hooks': False, 'samples': [], 'n_pred': 0,
-            'n_handler_calls': 0, 'n_ts_returns': 0, 'n_ts_returns_B': 0, 'ts_status': {}, 'ts_kinds': {}, 'findings': [], 'n_sysnext': 0, 'cpodes_nonmono': 0}
+            'n_handler_calls': 0, 'n_ts_returns': 0, 'n_ts_returns_B': 0, 'ts_status': {}, 'ts_kinds': {}, 'findings': [], 'n_sysnext': 0, 'cpodes_nonmono': 0, 'regressions_passed': []}
 
 def run(ctx):
     ctx.build_repo()
@@ -555,6 +573,11 @@ def run(ctx):
     corr_fec(ctx, drv, exe, 300 if not thorough else 3000, res)
     variant = corr_sub2(ctx, drv, exe, 40 if not thorough else 400, res)
     res['cf'] = 1 if variant == 1 else 0
+    # corpus first
+    for line in open(os.path.join(VERIF, 'corpus', 'C22', 'regress.txt')):
+        tk = line.split()
+        if len(tk) == 3 and tk[0] in ('ts', 'loc'):
+            (corr_ts if tk[0] == 'ts' else corr_loc)(ctx, drv, exe, int(tk[2]), int(tk[1]), res)
     for sd in seeds:
         corr_loc(ctx, drv, exe, 48 if not thorough else 160, sd, res)
         corr_ts(ctx, drv, exe, 54 if not thorough else 180, sd, res)
@@ -592,6 +615,9 @@ def run(ctx):
     ctx.extra['system_level_next_event_queries'] = res['n_sysnext']; ctx.extra['system_level_loop_variant'] = res.get('sysnext_variant')
     for key, desc, obj in res['findings']:
         ctx.report(key, desc, obj)
+    if not any(k == 'cpodes-stale-saved-state' for k, _, _ in res['findings']):
+        res['regressions_passed'].append('cpodes-stale-saved-state (corpus ts 3 9: no stale advanced state returned)')
+    ctx.extra['regressions_passed'] = res['regressions_passed']
     ctx.assumptions += [
         'theorems about the numeric part are over the reals (ROps); binary64 is covered only by the exact/1e-15 comparison of the extracted float instance with the implementation',
         'trigger values at interpolated times are an oracle e(t) in the theorems (any function); in the tie the witness functions depend on time only, so e is known exactly',
